@@ -16,7 +16,12 @@ RULE = ('seeded random histories over 1-4 declared ResourceMaps and 1-7 handles:
 RULE += ('  Object dimension: user subclasses of Handle / ResourceMap with value semantics (distinct objects that '
          'compare equal and hash alike, compare equal and are unhashable, are falsy).  Key dimension: maps whose '
          'delimiter is not "/" (subclass attribute or instance attribute), then with names that contain "/".')
-ASSUMPTIONS = ['values inserted more than once (aliasing, cycles) are generated for the model/code '
+RULE += ('  User subclasses whose parent/key are PROPERTIES: the setters run scripts that use the same map again '
+         '(assign, clear, get, []) in the middle of __setitem__ / clear; .parent/.key of anonymous maps are observed too.')
+ASSUMPTIONS = ['user code that changes the SIZE of a dictionary the library is iterating (a setter adding or removing '
+               'a direct child of the map under clear()) makes clear() raise RuntimeError half-way (mirrored by the '
+               'model; the oracle does not judge the rest of such a history)',
+               'values inserted more than once (aliasing, cycles) are generated for the model/code '
                'correspondence; the theorems and the back-link clauses of the oracle cover values that are '
                'inserted at most once (hypothesis Fresh)',
                'loaders do not touch the tree (loaders that raise are scripted: `newhandle h fail=i,j`)',
